@@ -49,4 +49,10 @@ func C08(run *vf.Run) {
 		Workers: 3,
 		Slices:  6,
 	})
+	if run.NumViolations() > 0 || len(run.InconclusiveList()) > 0 {
+		return
+	}
+	// code -> spec over arbitrary rule sets: recorded executions of the repository's test profiles, the Core Rule Set and
+	// generated rule sets must be behaviours of Flow.tla (Flow_Trace.tla)
+	FlowTraceStage(run, "profiles", "crs", "generated")
 }
